@@ -21,7 +21,7 @@ RULE = (
     "differences between the nodes are computed by adaptive quadrature (pseudopressure_Hussainy), by "
     "build_pvt_gas and by fluids.pseudopressure on the table's columns, plus additivity of the quadrature route "
     "over a generated split. 'transform' cases: arbitrary positive (pressure, viscosity, Z) tables of 2..60 rows "
-    "(uniform, geometric, jittered grids; smooth synthetic or rough random columns) given to "
+    "(uniform, geometric, jittered grids and evenly spaced grids with rows inserted in the middle; smooth synthetic or rough random columns) given to "
     "fluids.pseudopressure. Non-trivial = a gas case whose extreme nodes are >= 50 psi apart, or a transform "
     "case with >= 3 rows. Distinct = hash of the case record."
 )
@@ -50,10 +50,14 @@ def gas_case(draw, tier):
 @st.composite
 def transform_case(draw):
     n = draw(st.integers(2, 60))
-    grid = draw(st.sampled_from(["uniform", "geometric", "jitter"]))
+    grid = draw(st.sampled_from(["uniform", "geometric", "jitter", "uniform-edited", "uniform-edited"]))
     p0 = draw(st.floats(1.0, 500.0))
     p1 = p0 + draw(st.floats(10.0, 14000.0))
     jit = [draw(st.floats(0.05, 0.95)) for _ in range(n)] if grid == "jitter" else []
+    if grid == "uniform-edited":
+        # an evenly spaced lab table with rows inserted (at an initial / dew-point pressure) or removed in the middle
+        n = max(n, 5)
+        jit = [draw(st.floats(0.05, 0.95)) for _ in range(draw(st.integers(1, 3)))]
     family = draw(st.sampled_from(["smooth", "rough"]))
     if family == "smooth":
         cols = {"mu0": draw(st.floats(0.005, 0.1)), "mu_slope": draw(st.floats(0.0, 3.0)), "za": draw(st.floats(-0.4, 0.2)), "zb": draw(st.floats(0.0, 0.6))}
@@ -90,12 +94,19 @@ def check_case(case) -> Result:
         elif case["grid"] == "jitter":
             w = np.cumsum([0.0] + case["jit"][: n - 1])
             p = case["p0"] + (case["p1"] - case["p0"]) * w / w[-1]
+        elif case["grid"] == "uniform-edited":
+            p = case["p0"] + (case["p1"] - case["p0"]) * u
+            extra = [p[1] + f * (p[-2] - p[1]) for f in case["jit"]]
+            p = np.unique(np.concatenate([p, extra]))
+            n = len(p)
         else:
             p = case["p0"] + (case["p1"] - case["p0"]) * u
         if not np.all(np.diff(p) > 0):
             res.skipped = "degenerate pressure grid"
             return res
         c = case["cols"]
+        if case["family"] != "smooth" and len(c["mu"]) != len(p):  # edited grids: resample the rough columns
+            c = {"mu": list(np.resize(c["mu"], len(p))), "z": list(np.resize(c["z"], len(p)))}
         if case["family"] == "smooth":
             x = p / case["p1"]
             mu = c["mu0"] * (1 + c["mu_slope"] * x**2)
